@@ -157,6 +157,11 @@ def classify(outcome, env):
         for r, v in zip(env.recipients, val):
             per[r] = _one(v)
         return per, 'sequence'
+    if isinstance(val, BaseException):
+        # attempt() handed back an error object as its whole-message result: every caller (the Queue) reads any value that is
+        # neither a mapping nor a sequence as success
+        c = 'error-object-returned-as-result:' + type(val).__name__
+        return {r: c for r in env.recipients}, 'whole:' + c
     c = _one(val)
     return {r: c for r in env.recipients}, 'whole:' + c
 
